@@ -18,8 +18,60 @@ pub enum Strat { OnlyOne, Random, GroupBy, All }
 
 type Recv = Vec<Vec<Vec<Vec<E<i64>>>>>; // block, replica, batches
 
-pub fn drive_end(strat: Strat, mode: BatchMode, blocks: &[u64], script: Vec<E<i64>>) -> Result<Recv, String> {
+/// Batch mode of a link case; the delay of the adaptive mode is in milliseconds.
+#[derive(Clone, Copy, Debug, PartialEq)]
+pub enum LMode { Single, Fixed(usize), Adaptive(usize, u64) }
+impl LMode {
+    pub fn batch_mode(&self) -> BatchMode {
+        match self {
+            LMode::Single => BatchMode::single(),
+            LMode::Fixed(n) => BatchMode::fixed(*n),
+            LMode::Adaptive(n, d) => BatchMode::adaptive(*n, std::time::Duration::from_millis(*d)),
+        }
+    }
+    pub fn coq(&self) -> String {
+        match self {
+            LMode::Single => "BSingle".to_string(),
+            LMode::Fixed(n) => format!("(BFixed {}%nat)", n),
+            LMode::Adaptive(n, d) => format!("(BAdaptive {}%nat {}%N)", n, d),
+        }
+    }
+    /// delays are odd multiples of 5 ms and clock readings multiples of 10 ms, so that a
+    /// reading is never exactly `delay` after an earlier one (coarsetime rounds there)
+    pub fn random(rng: &mut Rng) -> LMode {
+        match rng.below(7) {
+            0 => LMode::Single,
+            1 => LMode::Fixed(1),
+            2 => LMode::Fixed(rng.range(2, 5) as usize),
+            3 => LMode::Fixed(1024),
+            4 => LMode::Adaptive(1024, *rng.pick(&[5u64, 15, 45])),
+            5 => LMode::Adaptive(rng.range(2, 5) as usize, *rng.pick(&[5u64, 15, 45])),
+            _ => LMode::Adaptive(1, 15),
+        }
+    }
+}
+
+/// Mock clock of a link case: the reading at `End::setup` and while the k-th element is pulled.
+#[derive(Clone, Debug)]
+pub struct Clock { pub t0: u64, pub times: Vec<u64> }
+impl Clock {
+    pub fn random(rng: &mut Rng, len: usize) -> Clock {
+        let t0 = 10 * rng.below(4);
+        let mut t = t0 + 10 * rng.below(3);
+        let times = (0..len).map(|_| {
+            t += match rng.below(10) { 0..=5 => 0, 6 | 7 => 10, 8 => 20, _ => 10 * rng.range(3, 12) as u64 };
+            t
+        }).collect();
+        Clock { t0, times }
+    }
+    pub fn coq(&self) -> String {
+        format!("{}%N [{}]", self.t0, self.times.iter().map(|t| format!("{}%N", t)).collect::<Vec<_>>().join("; "))
+    }
+}
+
+pub fn drive_end(strat: Strat, mode: BatchMode, blocks: &[u64], script: Vec<E<i64>>, clock: &Clock) -> Result<Recv, String> {
     let blocks = blocks.to_vec();
+    let clock = clock.clone();
     catch(move || {
         let env = StreamContext::new(RuntimeConfig::local(1).unwrap());
         let stream = env.stream(Script::new(script));
@@ -28,9 +80,15 @@ pub fn drive_end(strat: Strat, mode: BatchMode, blocks: &[u64], script: Vec<E<i6
         let receivers: Vec<Vec<NetReceiver<i64>>> = blocks.iter().enumerate().map(|(i, n)| net.add_next::<i64>(10 + i as u64, *n)).collect();
         let mut recv: Recv = blocks.iter().map(|n| vec![vec![]; *n as usize]).collect();
         // the same pulling loop for every strategy
-        fn pull<Op: Operator<Out = ()>>(mut end: Op, net: &mut Net, mode: BatchMode, receivers: &[Vec<NetReceiver<i64>>], recv: &mut Recv) {
+        fn pull<Op: Operator<Out = ()>>(mut end: Op, net: &mut Net, mode: BatchMode, receivers: &[Vec<NetReceiver<i64>>], recv: &mut Recv, clock: &Clock) {
+            let ms = std::time::Duration::from_millis;
+            verif::set_mock_clock(Some(ms(clock.t0)));
             end.setup(&mut net.metadata(mode));
+            let mut k = 0;
             loop {
+                // the clock stands still while End handles one element
+                verif::set_mock_clock(Some(ms(*clock.times.get(k).unwrap_or(clock.times.last().unwrap_or(&clock.t0)))));
+                k += 1;
                 let e = end.next();
                 for (b, rs) in receivers.iter().enumerate() {
                     for (r, rx) in rs.iter().enumerate() {
@@ -41,12 +99,13 @@ pub fn drive_end(strat: Strat, mode: BatchMode, blocks: &[u64], script: Vec<E<i6
                     break;
                 }
             }
+            verif::set_mock_clock(None);
         }
         match strat {
-            Strat::OnlyOne => pull(verif::end_chain(stream, EndStrategy::OnlyOne, mode), &mut net, mode, &receivers, &mut recv),
-            Strat::Random => pull(verif::end_chain(stream, EndStrategy::Random, mode), &mut net, mode, &receivers, &mut recv),
-            Strat::All => pull(verif::end_chain(stream, EndStrategy::All, mode), &mut net, mode, &receivers, &mut recv),
-            Strat::GroupBy => pull(verif::end_chain_group_by(stream, |v: &i64| *v % 100, mode), &mut net, mode, &receivers, &mut recv),
+            Strat::OnlyOne => pull(verif::end_chain(stream, EndStrategy::OnlyOne, mode), &mut net, mode, &receivers, &mut recv, &clock),
+            Strat::Random => pull(verif::end_chain(stream, EndStrategy::Random, mode), &mut net, mode, &receivers, &mut recv, &clock),
+            Strat::All => pull(verif::end_chain(stream, EndStrategy::All, mode), &mut net, mode, &receivers, &mut recv, &clock),
+            Strat::GroupBy => pull(verif::end_chain_group_by(stream, |v: &i64| *v % 100, mode), &mut net, mode, &receivers, &mut recv, &clock),
         }
         recv
     })
@@ -59,14 +118,14 @@ fn strat_coq(s: Strat) -> &'static str {
 /// the hash `NextStrategy::group_by(|v| v % 100)` uses for a value
 fn hash_of(v: i64) -> u64 { group_by_hash(&(v % 100)) }
 
-pub fn lcase_term(strat: Strat, fixed: Option<usize>, blocks: &[u64], script: &[E<i64>], recv: &Recv) -> String {
+pub fn lcase_term(strat: Strat, lmode: LMode, blocks: &[u64], script: &[E<i64>], recv: &Recv, clock: &Clock) -> String {
     let input: Vec<String> = script.iter().map(|e| {
         let h = match e { E::Item(v) | E::Timestamped(v, _) => hash_of(*v), _ => 0 };
         format!("({}, {}%N)", e.coq(), h)
     }).collect();
-    let mode = match fixed { Some(n) => format!("(BFixed {}%nat)", n), None => "BSingle".to_string() };
+    let mode = lmode.coq();
     let bl: Vec<String> = blocks.iter().map(|n| format!("{}%nat", n)).collect();
-    format!("(Build_lcase {} {} [{}] [{}] {})", strat_coq(strat), mode, bl.join("; "), input.join("; "), recv.coq())
+    format!("(Build_lcase {} {} [{}] [{}] {} {})", strat_coq(strat), mode, bl.join("; "), input.join("; "), recv.coq(), clock.coq())
 }
 
 /// distinct values (sequence numbers in the high part, a small key in the low part)
@@ -87,25 +146,26 @@ pub fn link_script(rng: &mut Rng) -> Vec<E<i64>> {
     out
 }
 
-pub fn random_link_case(rng: &mut Rng) -> (Strat, Option<usize>, Vec<u64>, Vec<E<i64>>) {
+pub fn random_link_case(rng: &mut Rng) -> (Strat, LMode, Vec<u64>, Vec<E<i64>>) {
     let strat = *rng.pick(&[Strat::OnlyOne, Strat::Random, Strat::GroupBy, Strat::GroupBy, Strat::All]);
-    let fixed = match rng.below(4) { 0 => None, 1 => Some(1), 2 => Some(rng.range(2, 5) as usize), _ => Some(1024) };
+    let fixed = LMode::random(rng);
     let nblocks = *rng.pick(&[1usize, 1, 2, 3]);
     let blocks: Vec<u64> = (0..nblocks).map(|_| if strat == Strat::OnlyOne { 1 } else { rng.range(1, 5) as u64 }).collect();
     (strat, fixed, blocks, link_script(rng))
 }
 
-pub fn emit_link(sink: &mut CaseSink, wrap_ctor: Option<&str>, strat: Strat, fixed: Option<usize>, blocks: Vec<u64>, script: Vec<E<i64>>) {
-    let mode = match fixed { Some(n) => BatchMode::fixed(n), None => BatchMode::single() };
-    let recv = drive_end(strat, mode, &blocks, script.clone()).unwrap_or_else(|m| { eprintln!("End drive: {m}"); sink.count("impl_failed"); blocks.iter().map(|n| vec![vec![]; *n as usize]).collect() });
-    let t = lcase_term(strat, fixed, &blocks, &script, &recv);
+pub fn emit_link(sink: &mut CaseSink, rng: &mut Rng, wrap_ctor: Option<&str>, strat: Strat, fixed: LMode, blocks: Vec<u64>, script: Vec<E<i64>>) {
+    let mode = fixed.batch_mode();
+    let clock = Clock::random(rng, script.len());
+    let recv = drive_end(strat, mode, &blocks, script.clone(), &clock).unwrap_or_else(|m| { eprintln!("End drive: {m}"); sink.count("impl_failed"); blocks.iter().map(|n| vec![vec![]; *n as usize]).collect() });
+    let t = lcase_term(strat, fixed, &blocks, &script, &recv, &clock);
     let term = match wrap_ctor { Some(c) => format!("({} {})", c, t), None => t };
     sink.count(&format!("end_{:?}", strat));
-    sink.count(match fixed { None => "batch_single", Some(1) => "batch_fixed_1", Some(1024) => "batch_fixed_1024", _ => "batch_fixed_small" });
+    sink.count(match fixed { LMode::Single => "batch_single", LMode::Fixed(1) => "batch_fixed_1", LMode::Fixed(1024) => "batch_fixed_1024", LMode::Fixed(_) => "batch_fixed_small", LMode::Adaptive(1024, _) => "batch_adaptive_1024", LMode::Adaptive(_, _) => "batch_adaptive_small" });
     sink.count(&format!("downstream_blocks_{}", blocks.len()));
     let nd = script.iter().filter(|e| matches!(e, E::Item(_) | E::Timestamped(_, _))).count();
     sink.push(term, json!({"kind": "End", "strategy": format!("{:?}", strat), "batch": format!("{:?}", fixed), "downstream_replicas": blocks,
-                           "input": format!("{:?}", script), "received": format!("{:?}", recv)}), nd >= 3 && blocks.iter().sum::<u64>() >= 2);
+                           "clock_ms": format!("{:?}", clock), "input": format!("{:?}", script), "received": format!("{:?}", recv)}), nd >= 3 && blocks.iter().sum::<u64>() >= 2);
 }
 
 pub fn generate_c03(opts: &Opts, sink: &mut CaseSink) {
@@ -113,7 +173,7 @@ pub fn generate_c03(opts: &Opts, sink: &mut CaseSink) {
     let n = (if opts.thorough { 6000 } else { 800 }) / opts.scale;
     for _ in 0..n {
         let (strat, fixed, blocks, script) = random_link_case(&mut rng);
-        emit_link(sink, None, strat, fixed, blocks, script);
+        emit_link(sink, &mut rng, None, strat, fixed, blocks, script);
     }
 }
 
@@ -122,7 +182,7 @@ pub fn generate_c02(opts: &Opts, sink: &mut CaseSink) {
     let n = (if opts.thorough { 5000 } else { 600 }) / opts.scale;
     for _ in 0..n {
         let (strat, fixed, blocks, script) = random_link_case(&mut rng);
-        emit_link(sink, Some("CLink"), strat, fixed, blocks, script);
+        emit_link(sink, &mut rng, Some("CLink"), strat, fixed, blocks, script);
     }
     // wire format: several replicas share one connection
     for _ in 0..n {
@@ -154,5 +214,5 @@ pub fn generate_c02(opts: &Opts, sink: &mut CaseSink) {
     }
 }
 
-pub const RULE_C03: &str = "the real End operator closing a scripted chain, every strategy (OnlyOne, Random, GroupBy on value mod 100, All/broadcast), batch modes single / fixed(1) / fixed(2..5) / fixed(1024), 1..3 downstream blocks with 1..5 replicas each (several downstream blocks per producer), 1..3 rounds with data, timestamps, watermarks and FlushBatch; distinct values so that each delivery is attributable; plus, for the scheduler's wiring of forward edges, the execution graphs of random jobs on local and heterogeneous multi-host deployments (generator of C19, every host's graph). Non-trivial: >=3 data elements and >=2 receivers / >=3 blocks and >=4 links; distinct = distinct case terms";
+pub const RULE_C03: &str = "the real End operator closing a scripted chain, every strategy (OnlyOne, Random, GroupBy on value mod 100, All/broadcast), batch modes single / fixed(1) / fixed(2..5) / fixed(1024) / adaptive(1024 | 2..5 | 1, 5 | 15 | 45 ms) under a mock clock (readings in multiples of 10 ms: bursts, short and long pauses), 1..3 downstream blocks with 1..5 replicas each (several downstream blocks per producer), 1..3 rounds with data, timestamps, watermarks and FlushBatch; distinct values so that each delivery is attributable; plus, for the scheduler's wiring of forward edges, the execution graphs of random jobs on local and heterogeneous multi-host deployments (generator of C19, every host's graph). Non-trivial: >=3 data elements and >=2 receivers / >=3 blocks and >=4 links; distinct = distinct case terms";
 pub const RULE_C02: &str = "links in memory: as C03, comparing per receiver the exact batch sequence with the model (batch boundaries included) and the conservation of elements; wire format: 1..6 messages (empty, single, up to 40 elements, extreme payloads / timestamps / replica ids) framed by the real remote_send for several destination replicas on one connection, decoded by the real remote_recv, header bytes compared with the model encoder. Non-trivial: as C03 / >=2 frames; distinct = distinct case terms";
